@@ -7,6 +7,8 @@ import (
 	"go/types"
 	"strings"
 
+	"golang.org/x/tools/go/ssa"
+
 	"verif/checker/core"
 )
 
@@ -408,4 +410,101 @@ func firstPos(a, b token.Pos) token.Pos {
 		return a
 	}
 	return b
+}
+
+// ---- C20.R5 path nodes are per-path objects ----
+
+// A compiled Path is a chain of nodes linked through BasePathNode.child, which chain() writes while the path text is
+// built. A node object that is shared between two selectors (a package-level `[*]` node handed out by the constructor)
+// makes every path that uses the selector share one child link: a Path then depends on the paths created after it.
+// Every node a constructor or builder function returns has to be allocated by that call.
+func c20r5(rc *core.RC) {
+	p := rc.P
+	of := core.NewOriginFinder(p)
+	pk := p.Pkg("decoder")
+	if pk == nil {
+		rc.Unknown("decoder/path-nodes", token.NoPos, "package not loaded")
+		return
+	}
+	var nodeIface *types.Interface
+	if o := pk.Types.Scope().Lookup("PathNode"); o != nil {
+		nodeIface, _ = o.Type().Underlying().(*types.Interface)
+	}
+	if nodeIface == nil {
+		rc.Unknown("decoder/path-nodes", token.NoPos, "interface PathNode not found")
+		return
+	}
+	isNode := func(t types.Type) bool {
+		if t == nil {
+			return false
+		}
+		if types.Implements(t, nodeIface) {
+			return true
+		}
+		if pt, ok := t.Underlying().(*types.Pointer); ok {
+			if strings.HasSuffix(pt.Elem().String(), "decoder.Path") || strings.HasSuffix(pt.Elem().String(), "decoder.BasePathNode") {
+				return true
+			}
+		}
+		return false
+	}
+	// (1) no package-level variable holds a node
+	n := 0
+	for _, short := range []string{"decoder", "json"} {
+		q := p.Pkg(short)
+		if q == nil {
+			continue
+		}
+		sc := q.Types.Scope()
+		for _, name := range sc.Names() {
+			v, ok := sc.Lookup(name).(*types.Var)
+			if !ok {
+				continue
+			}
+			if isNode(v.Type()) {
+				n++
+				rc.Bad(fmt.Sprintf("%s.%s/package-level-path-node", short, name), v.Pos(), "the package-level variable %s holds a path node (%s): a node carries the child link of the path it belongs to, so one that outlives a CreatePath call is shared by every path built from it", name, v.Type())
+			}
+		}
+	}
+	// (2) what the constructors and builders return was allocated by the call
+	k := 0
+	for _, fn := range p.ModuleFuncs() {
+		if fn.Pkg == nil || fn.Pkg.Pkg.Path() != core.PkgPaths["decoder"] || fn.Signature.Recv() != nil {
+			continue
+		}
+		res := fn.Signature.Results()
+		if res.Len() == 0 || !isNode(res.At(0).Type()) {
+			continue
+		}
+		for _, b := range fn.Blocks {
+			for _, ins := range b.Instrs {
+				r, ok := ins.(*ssa.Return)
+				if !ok || len(r.Results) == 0 {
+					continue
+				}
+				k++
+				rc.Touch(core.SSAName(fn))
+				key := fmt.Sprintf("%s/returned-node#%d allocated-by-the-call", core.SSAName(fn), k)
+				var bad []string
+				for _, o := range of.Origins(r.Results[0]) {
+					if o.Kind == "global" {
+						bad = append(bad, o.String())
+					}
+				}
+				rc.Check(len(bad) == 0, key, core.SSAPos(r), "the node returned does not come from a package-level variable%s", func() string {
+					if len(bad) == 0 {
+						return ""
+					}
+					return " — it is " + strings.Join(bad, ", ") + ": every path that contains this selector shares the node and its child link; creating a second such path re-links the first ($.items[*].id stops matching after CreatePath(\"$.tags[*].k\"))"
+				}())
+			}
+		}
+	}
+	if k < 4 {
+		rc.Unknown("decoder/path-node-constructors", token.NoPos, "found %d returns of path node constructors/builders (confirmed: newPathSelectorNode, newPathIndexNode, newPathIndexAllNode, newPathRecursiveNode and the builder)", k)
+	}
+	if n == 0 {
+		rc.OK("module/package-level-path-nodes", token.NoPos, "no package-level variable of json or decoder has a path node type")
+	}
 }
